@@ -91,8 +91,33 @@ pub fn hostile_bytes(rng: &mut Rng, max_len: usize) -> Vec<u8> {
             }
             6 => {
                 // huge / odd content-length
-                let cl = *rng.pick(&["Content-Length: 4294967295\r\n", "Content-Length: 4294967296\r\n", "Content-Length: -1\r\n", "Content-Length: 1\r\n", "Content-Length: 1023\r\n"]);
-                v.splice(p..p, cl.bytes());
+                // (also: the words a number parser may know -- nan, inf, exponents, signs, hex -- wherever a header
+                // value carries a number or a weight, and several acceptable values in one list)
+                let cl = *rng.pick(&[
+                    "Content-Length: 4294967295\r\n",
+                    "Content-Length: 4294967296\r\n",
+                    "Content-Length: -1\r\n",
+                    "Content-Length: 1\r\n",
+                    "Content-Length: 1023\r\n",
+                    "Content-Length: nan\r\n",
+                    "Content-Length: 1e3\r\n",
+                    "Content-Length: +7\r\n",
+                    "Content-Length: 0x10\r\n",
+                    "Content-Length: 18446744073709551616\r\n",
+                    "Accept: application/json;q=nan, text/plain\r\n",
+                    "Accept: text/plain;q=NaN, application/json;q=-nan, text/plain;q=inf\r\n",
+                    "Accept: text/plain;q=1e400, application/json;q=-0\r\n",
+                    "Accept: application/json, text/plain\r\n",
+                    "Accept-Encoding: gzip;q=nan, identity;q=inf, *;q=-0\r\n",
+                    "Accept-Encoding: identity;q=0.000, *;q=1e-999\r\n",
+                    "Expect: 100-continue;q=nan\r\n",
+                    "Transfer-Encoding: chunked;q=nan, identity\r\n",
+                ]);
+                // at the start of a line if there is one, else anywhere
+                let starts: Vec<usize> = v.windows(2).enumerate().filter(|(_, w)| *w == b"\r\n").map(|(i, _)| i + 2).collect();
+                let at = if !starts.is_empty() && rng.chance(4, 5) { *rng.pick(&starts) } else { p };
+                let at = at.min(v.len());
+                v.splice(at..at, cl.bytes());
             }
             _ => v[p] = rng.next() as u8,
         }
